@@ -12,7 +12,7 @@ Extraction "../ocaml/model.ml"
   is_point_format_compressed compressed_id_to_uncompressed uncompressed_id_to_compressed
   least_significant_bit_set
   null_pad cut_nul enc_vlrs dec_vlrs enc_header dec_header file_of wopen wstep wrun aopen apoints aclose arun
-  read_file read_records compat std_size read_file_f read_records_f dec_header_f dec_vlrs_f aopen_f arun_f
+  read_file read_records compat std_size read_file_f read_records_f dec_header_f dec_vlrs_f aopen_f arun_f aclose_t arun_t
   crun srun stats_of
   hstep hrun yday of_yday valid_date
   sf_assign sf_get sf_assign_arr sf_cmp_fast sf_cmp_spec sf_max all_sub_fields.
